@@ -115,7 +115,8 @@ pub fn judge(prop: &str, stream: &str, c: &Cell, o: &CellOutcome, supported: &dy
         "C01" => {
             if panicked {
                 push("impl-violates-property", "evaluation must not panic", format!("C01 panic {}", tys));
-            } else if imp.starts_with("(ok") && is_range_err(model) {
+            } else if (imp.starts_with("(ok") || imp.contains(" constructed (ok") || imp.contains(" as-rule (ok")) && is_range_err(model) {
+                // "whether parsed from text or built through the public constructors": a value on any of the routes
                 push(
                     "impl-violates-property",
                     "a result outside the range of its type must be an error (the exact result is out of range, the implementation returned a value)",
